@@ -12,6 +12,7 @@ import (
 	"runtime"
 	"strings"
 	"sync"
+	"sync/atomic"
 	"syscall"
 	"time"
 )
@@ -632,4 +633,16 @@ func verifExtTrue(tag string) bool {
 		}
 	}
 	return false
+}
+
+// verifAtomicPointer: atomic.Pointer[T] whose operations are schedule points of the deterministic replay (the driver
+// rewrites the package's atomic.Pointer fields to this type in the overlay copy, like the mutexes)
+type verifAtomicPointer[T any] struct{ real atomic.Pointer[T] }
+
+func (p *verifAtomicPointer[T]) Load() *T      { vmapPoint(); return p.real.Load() }
+func (p *verifAtomicPointer[T]) Store(v *T)    { vmapPoint(); p.real.Store(v) }
+func (p *verifAtomicPointer[T]) Swap(v *T) *T  { vmapPoint(); return p.real.Swap(v) }
+func (p *verifAtomicPointer[T]) CompareAndSwap(old, new *T) bool {
+	vmapPoint()
+	return p.real.CompareAndSwap(old, new)
 }
